@@ -5,6 +5,7 @@ mod engine;
 mod model;
 mod ops;
 mod props;
+mod reads;
 mod seq;
 mod world;
 
